@@ -204,23 +204,21 @@ theorem safe_parseValue (pyInt : Str → Option Int) (pyFloat : Str → Option N
       · cases he
       · cases he; rfl
 
-/-- `_unquote_unescape` raises IndexError only on a non-empty argument that strips to nothing (F8) -/
-theorem unquoteUnescape_safe (t : Str) (h : t = [] ∨ strip t ≠ []) : Safe (unquoteUnescape t) := by
+/-- `_unquote_unescape` raises nothing but ValueError (since the repair of F8 it strips before it looks at `text[0]`) -/
+theorem unquoteUnescape_safe' (t : Str) : Safe (unquoteUnescape t) := by
   intro e he
   unfold unquoteUnescape at he
-  by_cases h0 : t.isEmpty = true
-  · rw [if_pos h0] at he; cases he
-  · rw [if_neg h0] at he
-    dsimp only at he
-    split at he
-    · next hs =>
-      rcases h with h | h
-      · subst h; exact absurd rfl h0
-      · exact absurd hs h
+  dsimp only at he
+  split at he
+  · cases he
+  · split at he
+    · cases he
     · split at he
       · cases he; rfl
       · cases he
     · cases he
+
+theorem unquoteUnescape_safe (t : Str) (_h : t = [] ∨ strip t ≠ []) : Safe (unquoteUnescape t) := unquoteUnescape_safe' t
 
 -- copied (needs `unquoteUnescape_safe`) --
 
